@@ -266,6 +266,10 @@ static void log_final(vb_run_t *r)
     char b[VT_LINE - 96];
     int o = snprintf(b, sizeof(b), "[");
     for( int i = 0; i < r->ntiles; i++ ) {
+        if( o + 8 * (r->ts + 1) >= (int)sizeof(b) ) {    /* never write past the line (lib/jdfgen.py:final_event_bound) */
+            vt_ev("\"e\":\"ToolError\",\"tp\":%d,\"what\":\"collection too large for one Final event\"", r->index * 64);
+            return;
+        }
         if( i ) o += snprintf(b + o, sizeof(b) - o, ",");
         o += vb_fmt_ints(b + o, sizeof(b) - o, r->store + i * r->ts, r->ts);
     }
